@@ -297,6 +297,7 @@ func cmdCheck(args []string) int {
 	var wg sync.WaitGroup
 	var solverSecs float64
 	var mu sync.Mutex
+	preScripts := map[string]string{} // scripts of the V:pre guards (for a longer second try)
 	nq := 0
 	for ti, r := range results {
 		for oi, o := range r.Obls {
@@ -346,6 +347,11 @@ func cmdCheck(args []string) int {
 				o.Result = &SolveResult{Verdict: "unknown", Output: "VC larger than 8 MB"}
 				continue
 			}
+			if o.Class == "V" && strings.HasPrefix(o.Label, "pre:") {
+				mu.Lock()
+				preScripts[o.Name] = script
+				mu.Unlock()
+			}
 			wg.Add(1)
 			go func(ti, oi int, o *Obligation, script, weak string) {
 				defer wg.Done()
@@ -393,6 +399,26 @@ func cmdCheck(args []string) int {
 				continue
 			}
 			after := byName[strings.Replace(o.Name, "#V:pre:", "#V:after:", 1)]
+			if after != nil && after.Status == "failed" && o.Status != "failed" && (o.Result == nil || o.Result.Verdict != "sat") {
+				// the path after the call is refuted but the one-second query about the path before it
+				// did not finish: decide that one properly before blaming the callee's contract
+				if sc, ok := preScripts[o.Name]; ok {
+					res := Solve2(sc, "", smtDir, "vpre_retry", 60)
+					solverSecs += res.Secs
+					o.Result = &res
+					switch res.Verdict {
+					case "unsat":
+						o.Status = "failed"
+					case "sat":
+					default:
+						// still undecided: no verdict about the callee's contract can be drawn
+						after.Status = "proved"
+						if after.Result != nil {
+							after.Result.Output = "feasibility of the path before the call undecided: " + after.Result.Output
+						}
+					}
+				}
+			}
 			if o.Status == "failed" && after != nil {
 				after.Status = "proved"
 				if after.Result != nil {
